@@ -64,11 +64,13 @@ def finals(p, sc):
     return [{"sched": bool(t.get("scheduled", sc)), "start": secs(p, t.get("start", sc)), "end": secs(p, t.get("end", sc))} for t in p.tasks]
 
 
-def expected_cost_cents(p, t, sc):
+def expected_cost_cents(p, t, sc, rates=None):
+    """rate x booked time; the rate of a resource is the one the GENERATOR gave it (own, else the nearest group's, else
+    the global one) when the job says so -- the implementation's view of the rate is not trusted."""
     total = 0.0
     for r in p.resources:
         rs = r.data[sc] if r.data else None
-        rate = r.get("rate", sc) or 0.0
+        rate = (rates.get(r.fullId, 0.0) if rates is not None else r.get("rate", sc)) or 0.0
         if rs is None or not rate:
             continue
         for lst in rs.slotTaskUsage.values():
@@ -78,7 +80,7 @@ def expected_cost_cents(p, t, sc):
     return int(round(total * 100))
 
 
-def observe(p, rep, outdir, job_id, scen_id=None):
+def observe(p, rep, outdir, job_id, scen_id=None, rates=None):
     # the scenario the report is about: the one its definition names (as written by the generator), else the first
     sc = 0
     if scen_id is not None:
@@ -96,7 +98,7 @@ def observe(p, rep, outdir, job_id, scen_id=None):
                       "start": through_format(p, st, fmt) if sched else NULL, "end": through_format(p, en, fmt) if sched else NULL,
                       "start0": secs(p, st), "end0": secs(p, en),
                       "effort": int(round(float("%.2f" % float(t.get("effort", sc) or 0)) * 100)),
-                      "prio": int(t.get("priority", sc) or 0), "costCents": expected_cost_cents(p, t, sc)})
+                      "prio": int(t.get("priority", sc) or 0), "costCents": expected_cost_cents(p, t, sc, rates)})
     o = {"id": "%s/%s" % (job_id, rep.fullId), "def": {"columns": cols, "leafOnly": bool(rep.get("leafTasksOnly")), "fmt": fmt}, "tasks": tasks}
     ctx = ReportContext(p, rep)
     ctx.push()
@@ -164,7 +166,7 @@ def main(jobs_path, out_path):
                     p = parser.parse(job["text"])
                     for rep in p.reports:
                         if type(rep).__name__ and getattr(rep, "type_spec", None) is not None and rep.type_spec.value == "taskreport":
-                            out.write(json.dumps(observe(p, rep, d, job["id"], (job.get("report_scenario") or {}).get(rep.fullId))) + "\n")
+                            out.write(json.dumps(observe(p, rep, d, job["id"], (job.get("report_scenario") or {}).get(rep.fullId), job.get("rates"))) + "\n")
             except Exception:  # noqa: BLE001
                 out.write(json.dumps({"id": job["id"], "error": traceback.format_exc()[-1200:]}) + "\n")
             finally:
